@@ -14,7 +14,6 @@ import SecsModel.Props.C20b
 #print axioms SecsModel.Props.C20.service_agreement
 #print axioms SecsModel.Props.C20.events_exactly_once
 #print axioms SecsModel.Props.C20b.sim_deliver
-#print axioms SecsModel.Props.C20b.sim_deliver_frames
 #print axioms SecsModel.Props.C20b.sim_linkUp
 #print axioms SecsModel.Props.C20b.sim_linkDown
 #print axioms SecsModel.Props.C20b.sim_t3
@@ -23,5 +22,5 @@ import SecsModel.Props.C20b
 #print axioms SecsModel.Props.C20b.sim_enable
 #print axioms SecsModel.Props.C20b.sim_disable
 #print axioms SecsModel.Proofs.PairBridge.never_entered
-#print axioms SecsModel.Props.C20b.delay_not_selected_differs
-#print axioms SecsModel.Props.C20b.delay_not_connected_differs
+#print axioms SecsModel.Props.C20b.delay_not_selected_agrees
+#print axioms SecsModel.Props.C20b.delay_not_connected_flushed_at_linkUp
